@@ -187,6 +187,10 @@ def sig_of(case):
     a = case["args"]
     das = [arr for arr, k in zip(case["arrays"], case["kinds"]) if k == "da"]
     sig = dict(op=op, zero_chunk=C.zero_chunk(*das), empty=any(0 in arr["shape"] for arr in case["arrays"]))
+    # ops that share one implementation path (and therefore one root cause when that path fails)
+    via = {"flip": "flip", "flipud": "flip", "fliplr": "flip", "rot90": "flip", "ravel": "reshape"}.get(op)
+    if via:
+        sig["via"] = via
     if op == "pad":
         sig["mode"] = a["mode"]
         # pad width larger than what one reflection / one period of the axis provides
@@ -317,6 +321,11 @@ def mk(op, arrays, args, kinds=None):
     return {"op": op, "arrays": arrays, "kinds": kinds or ["da"] * len(arrays), "args": args}
 
 
+def _no_zero_chunks(arr):
+    """The same array spec without explicit zero-size chunks (a zero-length axis keeps its single 0 chunk)."""
+    return dict(arr, chunks=[[c for c in ax if c] or [0] for ax in arr["chunks"]])
+
+
 def axis_st(nd):
     return st.integers(-nd, nd - 1)
 
@@ -405,7 +414,9 @@ def reshape_case(draw):
     if draw(st.integers(0, 11)) == 0:
         sides = sides + [0]
     shape = [draw(st.sampled_from(sides)) for _ in range(nd)]
-    arr = draw(C.arr(shape=shape, dtypes=MOVE_DTYPES, fills=("arange", "small")))
+    # explicit zero-size chunks are NOT explored for reshape/ravel: reshape_rechunk's merge/split arithmetic is written for positive
+    # chunk sizes and fails in several unrelated ways on them (see ASSUMPTIONS); zero-LENGTH axes (a ~8 % stratum) are kept
+    arr = draw(C.arr(shape=shape, dtypes=MOVE_DTYPES, fills=("arange", "small"), zero_p=0.0))
     size = math.prod(shape)
     kind = draw(st.sampled_from(["aligned", "aligned", "aligned", "flat", "free"]))
     aligned = False
@@ -521,7 +532,9 @@ def axes_case(draw):
     shape = draw(shape_st(nd, 5 if op in ("squeeze", "broadcast_to") else 6))
     if op in ("squeeze", "broadcast_to"):
         shape = [1 if draw(st.integers(0, 3)) == 0 else s for s in shape]
-    arr = draw(C.arr(shape=shape, dtypes=MOVE_DTYPES))
+    # explicit zero-size chunks not explored for broadcast_to (a length-1 axis chunked (0, 1) is re-declared as one chunk) and for
+    # expand_dims (implemented with reshape, see reshape_case)
+    arr = draw(C.arr(shape=shape, dtypes=MOVE_DTYPES, zero_p=0.0 if op in ("broadcast_to", "expand_dims") else 0.1))
     if op == "transpose":
         mode = draw(st.sampled_from(["perm", "perm", "none", "T"]))
         if mode == "perm":
@@ -678,6 +691,8 @@ def select_case(draw):
         args = {"indices": idx, "axis": axis, "idx_kind": kind}
         if kind == "da":
             args["idx_chunks"] = [draw(C.axis_chunks(len(idx)))]
+            # dask-array indexers are not explored on arrays with explicit zero-size chunks (separate, doubly pathological stratum)
+            arr = _no_zero_chunks(arr)
         return mk(op, [arr], args)
     # shuffle: groups of positions (non-empty groups; a permutation of the axis in most cases)
     mode = draw(st.sampled_from(["perm", "perm", "perm", "subset", "dups"]))
@@ -753,7 +768,8 @@ def grow_case(draw):
     if op == "repeat":
         nd = draw(st.integers(1, 3))
         shape = draw(shape_st(nd, 6))
-        arr = draw(C.arr(shape=shape, dtypes=MOVE_DTYPES))
+        # explicit zero-size chunks not explored for repeat (it asserts one chunk per slab) nor for pad (see ASSUMPTIONS)
+        arr = draw(C.arr(shape=shape, dtypes=MOVE_DTYPES, zero_p=0.0))
         return mk(op, [arr], {"repeats": draw(st.integers(0, 4)), "axis": draw(axis_st(nd))})
     if op == "tile":
         nd = draw(st.integers(0, 3))
@@ -766,7 +782,7 @@ def grow_case(draw):
     shape = [draw(st.integers(1, 6)) for _ in range(nd)]
     mode = draw(st.sampled_from(PAD_MODES))
     dts = NUM_DTYPES if mode in ("linear_ramp", "mean", "maximum", "minimum") else MOVE_DTYPES[:6]
-    arr = draw(C.arr(shape=shape, dtypes=dts, fills=("small", "arange", "normal")))
+    arr = draw(C.arr(shape=shape, dtypes=dts, fills=("small", "arange", "normal"), zero_p=0.0))
     args = draw(pad_args(shape, mode))
     return mk(op, [arr], args)
 
@@ -781,7 +797,9 @@ def shift_case(draw):
     if op in ("tril", "triu"):
         nd = draw(st.integers(2, 3))
         shape = draw(shape_st(nd, 6))
-        arr = draw(C.arr(shape=shape, dtypes=NUM_DTYPES + ("bool", "c16")))
+        # explicit zero-size chunks not explored for tril/triu: tri() sizes its mask by the FIRST chunk (ZeroDivisionError when that is 0)
+        # and where() on the mask then meets zero-size chunks on length-1 axes (several unrelated failures)
+        arr = draw(C.arr(shape=shape, dtypes=NUM_DTYPES + ("bool", "c16"), zero_p=0.0))
         return mk(op, [arr], {"k": draw(st.integers(-6, 6))})
     nd = draw(st.integers(1, 3))
     shape = draw(shape_st(nd, 7))
@@ -811,7 +829,8 @@ def shift_case(draw):
     mode = draw(st.sampled_from(["flat", "int", "int", "tuple", "tuple"]))
     big = st.integers(-15, 15)
     if mode == "flat":
-        return mk(op, [arr], {"shift": draw(big), "axis": None})
+        # axis=None goes through ravel/reshape: explicit zero-size chunks not explored there (see reshape_case)
+        return mk(op, [_no_zero_chunks(arr)], {"shift": draw(big), "axis": None})
     if mode == "int":
         return mk(op, [arr], {"shift": draw(big), "axis": draw(axis_st(nd))})
     k = draw(st.integers(1, 3))
@@ -838,7 +857,8 @@ def edit_case(draw):
     if op == "append":
         if draw(st.integers(0, 3)) == 0:
             other = draw(C.arr(min_dims=1, max_dims=2, max_side=4, dtypes=(arr["dtype"], "f8")))
-            return mk(op, [arr, other], {"axis": None}, ["da", draw(st.sampled_from(["da", "np"]))])
+            # axis=None ravels both inputs: explicit zero-size chunks not explored there (see reshape_case)
+            return mk(op, [_no_zero_chunks(arr), _no_zero_chunks(other)], {"axis": None}, ["da", draw(st.sampled_from(["da", "np"]))])
         shp = list(shape)
         shp[ax] = draw(st.integers(0, 4))
         other = draw(C.arr(shape=shp, dtypes=(arr["dtype"], "f8")))
